@@ -46,6 +46,15 @@ func init() {
 	shape.RegisterBase("TagSet", reflect.TypeOf(TagSet(nil)))
 	shape.RegisterBase("EmbTag", reflect.TypeOf(EmbTag{}))
 	shape.RegisterBase("EmbDeep", reflect.TypeOf(EmbDeep{}))
+	// maps whose KEY type is time.Duration (the shape grammar only spells
+	// map[string]T); usable inside the grammar's composites: []DurKeyInt,
+	// *DurKeyStr, map[string]DurKeyInt
+	shape.RegisterBase("DurKeyStr", reflect.TypeOf(map[time.Duration]string{}))
+	shape.RegisterBase("DurKeyInt", reflect.TypeOf(map[time.Duration]int{}))
+	shape.RegisterBase("DurKeyDur", reflect.TypeOf(map[time.Duration]time.Duration{}))
+	shape.RegisterBase("DurKeyInts", reflect.TypeOf(map[time.Duration][]int{}))
+	shape.RegisterBase("DurKeyDurs", reflect.TypeOf(map[time.Duration][]time.Duration{}))
+	shape.RegisterBase("DurKeyStrDur", reflect.TypeOf(map[time.Duration]map[string]time.Duration{}))
 }
 
 // staticWords gives the words of the Go names of fields of harness-declared
